@@ -161,3 +161,6 @@ class VhdxSuite(ReaderSuite):
 
 
 SUITES = {"vhdx": VhdxSuite()}
+
+from harness.readers import under_O  # noqa: E402
+SUITES["vhdx_pyO"] = under_O(SUITES["vhdx"])
